@@ -77,7 +77,7 @@ def InterruptedOK (ρ : Env) (s e : Int) (t : Task) (ivs : List (Int × Int)) : 
 
 /-- the busy interval is exempt: the repetition is not active where it lies -/
 def PeriodicMasked (ρ : Env) (b : BusyRef) (start : Int) (end_ : Option Int) : Prop :=
-  (0 < start ∧ b.eV ρ ≤ start) ∨ (∃ en, end_ = some en ∧ en ≤ b.sV ρ)
+  (0 ≤ start ∧ b.eV ρ ≤ start) ∨ (∃ en, end_ = some en ∧ en ≤ b.sV ρ)
 
 /-- time added by the repetitions of the listed windows that lie inside `[s, e]` -/
 def periodicOverlapSum (s e : Int) (ivs : List (Int × Int)) (off p : Int) : Int :=
@@ -270,7 +270,7 @@ theorem unmasked_core (ρ : Env) (b : BusyRef) (start : Int) (end_ : Option Int)
       obtain ⟨a, ha, hae⟩ := h
       simp only [periodicMasks, List.mem_append] at ha
       rcases ha with ha | ha
-      · by_cases hs : start > 0
+      · by_cases hs : start ≥ 0
         · simp only [hs, if_true, List.mem_singleton] at ha
           subst ha
           apply hmask
@@ -539,7 +539,7 @@ theorem C04_periodic_own_period (c : Nat) (busy : List BusyRef) (ivs : List (Int
       obtain ⟨a, ha, hae⟩ := hf
       simp only [periodicMasks, List.mem_append] at ha
       rcases ha with ha | ha
-      · by_cases hs : start > 0
+      · by_cases hs : start ≥ 0
         · simp only [hs, if_true, List.mem_singleton] at ha
           subst ha
           apply hmask
